@@ -55,6 +55,8 @@
 //     merges active profiles and drops the profile origin, and an inactive profile never takes part in resolution, so
 //     "the version it would resolve to without that change" cannot be attributed to a declaration: not demanded
 //     (VERIF_C11_ORIGIN=... runs them for inspection only; such a run is capped, never a deciding run).
+//   - FixVulns combining independently computed patches with DISJOINT fixed sets where one patch moves a package that
+//     another pins lower (key <strategy>:independent-patches-combined-downgrade) is an open known finding.
 //   - IgnoreDev of Update is not exercised.
 //
 // Cause keys: <strategy>:updates-none-package, :downgrade, :no-upward-move, :exceeds-level,
@@ -553,6 +555,8 @@ func runFix(st string, c *u.Case, dir string, out *tupleOut) {
 					out.findings[i].Key = st + ":independent-patches-combined-downgrade"
 				}
 			}
+			// <strategy>:independent-patches-combined-downgrade is an OPEN known finding (known_findings.json):
+			// it is reported under its own key, which a broken choosePatches rule (key :downgrade) does not share.
 		}
 	}
 	if written != nil {
@@ -663,7 +667,7 @@ func main() {
 	}
 
 	dcTotals := map[string]*atomic.Int64{}
-	for _, k := range []string{"writer-refused-patch", "patched-manifest-unresolvable", "writer-refused-partial-patch", "partial-manifest-unresolvable", "partial-manifest-unreadable", "patched-manifest-unreadable", "base-version-undefined", "new-version-undefined", "version-outside-reference-order", "manifest-unreadable", "manifest-parse-error", "manifest-resolve-error", "compute-patches-error", "fixvulns-error", "update-error"} {
+	for _, k := range []string{"writer-refused-patch", "patched-manifest-unresolvable", "writer-refused-partial-patch", "partial-manifest-unresolvable", "partial-manifest-unreadable", "patched-manifest-unreadable", "candidate:independent-patches-combined-downgrade", "base-version-undefined", "new-version-undefined", "version-outside-reference-order", "manifest-unreadable", "manifest-parse-error", "manifest-resolve-error", "compute-patches-error", "fixvulns-error", "update-error"} {
 		dcTotals[k] = &atomic.Int64{}
 	}
 	perStrategy := map[string]map[string]int64{}
